@@ -27,12 +27,12 @@ def redirect(loc):
 TAGS = [0, "", (), 3, "four", 5.0]      # application tags (reply=) of the requests of a queue: falsy ones are tags too
 
 
-def execute(queue, secure, make="scheme", slow=False):
+def execute(queue, secure, make="scheme", slow=False, late=False):
     """slow: the kernel takes at most 9 bytes of a request per send() and every third send() would block"""
     rig = httprig.HttpClientRig(secure, make)
     problems = []
     try:
-        for i, s in enumerate(queue):
+        def enqueue(i):
             if i % 2:
                 # explicitly no query arguments and no header fields (empty, not None): nothing of the request before may be used
                 rig.cli.request(method="POST", path="/p%d" % (i + 1), body=b"body%d" % i, rid=i + 1, reply=TAGS[i % len(TAGS)],
@@ -40,6 +40,10 @@ def execute(queue, secure, make="scheme", slow=False):
             else:
                 rig.cli.request(method="GET", path="/p%d" % (i + 1), qargs={"n": str(i)}, headers={"X-Get": str(i)}, rid=i + 1,
                                 reply=TAGS[i % len(TAGS)])
+        # late: only the first request is queued now, the others when the first response is there (the client has been used by then)
+        for i in range(1 if late else len(queue)):
+            enqueue(i)
+        pending_late = list(range(1, len(queue))) if late else []
         outstanding = 0
         delayed = []            # [rounds to go, bytes]
         hop = {}
@@ -48,6 +52,10 @@ def execute(queue, secure, make="scheme", slow=False):
                 if slow and rig.sock() is not None and not rig.sock().closed:
                     rig.sock().sendplan = ["blockw" if secure else "block"] if rnd % 3 == 2 else [9]
                 rig.service()
+                if pending_late and rig.cli.responses:
+                    for i in pending_late:
+                        enqueue(i)
+                    pending_late = []
                 for d in delayed:
                     d[0] -= 1
                 for d in [d for d in delayed if d[0] <= 0]:
@@ -173,12 +181,13 @@ def run(ctx):
             ctx.case((secure, tuple(rec["queue"])), {"secure": secure, "scripts": rec["queue"], "responses": rec["responses"]} if i == 150 else None)
             make = ("scheme", "connector")[i % 2]
             slow = (i % 3 == 1)
-            real = execute(list(rec["queue"]), secure, make, slow)
+            late = (i % 4 >= 2)
+            real = execute(list(rec["queue"]), secure, make, slow, late)
             bad = judge(rec, real, secure)
             if bad:
                 ctx.violation(bad + (" [client made from a connector]" if make == "connector" else "") +
                               (" [requests leave in pieces of <= 9 bytes]" if slow else ""),
-                              {"rec": rec, "secure": secure, "real": real, "make": make, "slow": slow})
+                              {"rec": rec, "secure": secure, "real": real, "make": make, "slow": slow, "late": late})
     ctx.exhaustive = True
     return ctx.finish(rule="every request carries an application tag (reply=; 0, '' and () among them) that must come back with its response; "
                            "clients are made alternately from (hostname, port, scheme) and from a ready tcp connector without scheme; "
@@ -192,6 +201,6 @@ def run(ctx):
 
 
 def replay_case(ctx, case):
-    real = execute(list(case["rec"]["queue"]), case["secure"], case.get("make", "scheme"), case.get("slow", False))
+    real = execute(list(case["rec"]["queue"]), case["secure"], case.get("make", "scheme"), case.get("slow", False), case.get("late", False))
     bad = judge(case["rec"], real, case["secure"])
     return [bad] if bad else []
